@@ -218,6 +218,14 @@ func (p *solutionPlanStopsUnitImpl) unplan() (bool, error) {
 		return false, err
 	}
 	if constraint != nil {
+		// the stops go back on the route: a unit of units this unit belongs to
+		// counts as planned again while the vehicle is propagated (the move
+		// below does not file members; the objective reads the collections)
+		if planUnitsUnit, isMemberOf := p.modelPlanStopsUnit.PlanUnitsUnit(); isMemberOf {
+			solutionPlanUnitsUnit := solution.SolutionPlanUnit(planUnitsUnit)
+			solution.unPlannedPlanUnits.remove(solutionPlanUnitsUnit)
+			solution.plannedPlanUnits.add(solutionPlanUnitsUnit)
+		}
 		planned, err := move.Execute(context.Background())
 		if err != nil {
 			return false, err
